@@ -171,6 +171,7 @@ def _work(chunk):
             scfg = export.mk_scfg(succ)
         stages = (("input", None),) if tag == "any-digraph" else \
             (("input", None), ("closed", "join_returns"), ("loop", "restructure_loop"), ("branch", "restructure_branch"))
+        written = []          # (stage, dictionary as written, deep copy taken at that time)
         for stage, op in stages:
             if op is not None:
                 try:
@@ -178,8 +179,21 @@ def _work(chunk):
                 except Exception as e:  # noqa: BLE001
                     fails.append((succ, stage, "pipeline-on-reloaded-graph:" + exc_sig(e)))
                     break
+                # what was written out at an earlier stage is a value: working on the graph (or on a
+                # graph read back from it) must not change it afterwards
+                for st0, d0, snap0 in written:
+                    if d0 != snap0:
+                        fails.append((succ, stage, f"dictionary-written-at-stage-{st0}-changed-afterwards"))
+                        written = []
+                        break
             n += 1
             s2, fl, ln, what = roundtrip(scfg)
+            try:
+                import copy
+                dd = scfg.to_dict()
+                written.append((stage, dd, copy.deepcopy(dd)))
+            except Exception:  # noqa: BLE001
+                pass
             for f in fl:
                 fails.append((succ, stage, f))
             for k, w in enumerate(what):
